@@ -33,6 +33,8 @@ type c02world struct {
 	tooLong   bool
 	cut       int // entries served in the first (slice) answer; len(log) = one piece
 	s         *internalState
+	hasEnc    bool // the server log also holds one secret-chat message (qts 1), seen only through the difference
+	encSeen   bool
 	early     int // C03: persisted pts seen while an entry at or below it was not yet delivered
 }
 
@@ -54,6 +56,10 @@ func (w *c02world) Handle(ctx context.Context, u tg.UpdatesClass) error {
 		case *tg.UpdateNewMessage:
 			if m, ok := x.Message.(*tg.Message); ok && m.ID >= 1000 && m.ID < 1000+len(w.log) {
 				w.delivered[m.ID-1000] = true
+			}
+		case *tg.UpdateNewEncryptedMessage:
+			if m, ok := x.Message.(*tg.EncryptedMessage); ok && m.RandomID == 777 {
+				w.encSeen = true
 			}
 		case *tg.UpdateDeleteMessages:
 			if len(x.Messages) == 1 && x.Messages[0] >= 1000 && x.Messages[0] < 1000+len(w.log) {
@@ -120,14 +126,20 @@ func (w *c02world) UpdatesGetDifference(ctx context.Context, r *tg.UpdatesGetDif
 			others = append(others, w.update(i))
 		}
 	}
-	if served == 0 {
+	var enc []tg.EncryptedMessageClass
+	qts := r.Qts
+	if w.hasEnc && r.Qts < 1 {
+		enc = append(enc, &tg.EncryptedMessage{RandomID: 777, ChatID: 3, Date: 1, Bytes: []byte{1, 2, 3, 4}, File: &tg.EncryptedFileEmpty{}})
+		qts = 1
+	}
+	if served == 0 && len(enc) == 0 {
 		return &tg.UpdatesDifferenceEmpty{}, nil
 	}
-	st := tg.UpdatesState{Pts: last}
+	st := tg.UpdatesState{Pts: last, Qts: qts}
 	if last < end {
-		return &tg.UpdatesDifferenceSlice{NewMessages: msgs, OtherUpdates: others, IntermediateState: st}, nil
+		return &tg.UpdatesDifferenceSlice{NewMessages: msgs, NewEncryptedMessages: enc, OtherUpdates: others, IntermediateState: st}, nil
 	}
-	return &tg.UpdatesDifference{NewMessages: msgs, OtherUpdates: others, State: st}, nil
+	return &tg.UpdatesDifference{NewMessages: msgs, NewEncryptedMessages: enc, OtherUpdates: others, State: st}, nil
 }
 
 func (w *c02world) UpdatesGetChannelDifference(ctx context.Context, r *tg.UpdatesGetChannelDifferenceRequest) (tg.UpdatesChannelDifferenceClass, error) {
@@ -165,6 +177,7 @@ func c02scenario() *c02world {
 		w.log = append(w.log, c02entry{msg: verifrt.NondetBool("ismsg"), pos: w.p0 + i + 1})
 	}
 	w.delivered = make([]bool, n)
+	w.hasEnc = verifrt.NondetBool("enc")
 	w.cut = 1 + verifrt.Fork("cut", n) // 1..n ; n = one piece
 	var g errgroup.Group
 	w.s = newState(context.Background(), stateConfig{
@@ -200,6 +213,7 @@ func VerifC02_recovery() {
 		}
 	}
 	verifrt.Assert(all || w.tooLong, "C02.recovery.alldelivered")
+	verifrt.Assert(!w.hasEnc || w.encSeen, "C02.recovery.encrypted")
 	verifrt.Assert(w.s.pts.State() == w.p0+len(w.log), "C02.recovery.state")
 	verifrt.Reach("C02.recovery.end")
 }
